@@ -876,6 +876,40 @@ class Engine:
             raise Unsupported('loop #%d (line %d) has no invariant in the contract' % (lid, n.lineno))
         return self.cut_loop(n, st, spec, lid, test=n.test, body=n.body, orelse=n.orelse)
 
+
+    def auto_havoc_locals(self, head, body, frame):
+        """Locals that the loop body assigns are loop-carried: at the loop head they hold an arbitrary value of their kind, whether or
+        not the contract's frame names them.  Applied to scalar kinds (flags, counters, numbers, opaque values); containers are
+        covered by the frame patterns (they are mutated in place) or by ``Loop.rebind``."""
+        names = set()
+
+        def targets(t):
+            if isinstance(t, ast.Name):
+                names.add(t.id)
+            elif isinstance(t, (ast.Tuple, ast.List)):
+                for e in t.elts:
+                    targets(e)
+            elif isinstance(t, ast.Starred):
+                targets(t.value)
+        for stmt_ in body:
+            for node in ast.walk(stmt_):
+                if isinstance(node, ast.Assign):
+                    for t in node.targets:
+                        targets(t)
+                elif isinstance(node, (ast.AugAssign, ast.AnnAssign)):
+                    targets(node.target)
+                elif isinstance(node, ast.For):
+                    targets(node.target)
+                elif isinstance(node, ast.NamedExpr):
+                    targets(node.target)
+        declared = set(p[1:] for p in frame if isinstance(p, str) and p.startswith('$'))
+        for nm in names - declared:
+            if nm not in head.env:
+                continue
+            v = head.env[nm]
+            if isinstance(v, (bool, int, float, NR, Opaque, MaybeNone)) or (z3.is_expr(v)):
+                head.env[nm] = self.havoc_value(head, v, nm + '@loophead')
+
     def cut_loop(self, n, st, spec, lid, test, body, orelse, pre_body=None):
         # 1. invariant on entry
         for name, fn in spec.inv:
@@ -886,6 +920,7 @@ class Engine:
         saved_outer = head.writes
         head.writes = None
         self.havoc_frame(head, spec.frame)
+        self.auto_havoc_locals(head, body, spec.frame)
         allowed_locs |= self.frame_locs(head, spec.frame)
         head.writes = saved_outer
         if saved_outer is not None:
@@ -1122,6 +1157,7 @@ class Engine:
             _sw = head.writes
             head.writes = None
             self.havoc_frame(head, spec.frame)
+            self.auto_havoc_locals(head, n.body, spec.frame)
             allowed_locs |= self.frame_locs(head, spec.frame)
             head.writes = _sw
             head_locs = set(head.locs) | set(head.initial_locs)
@@ -1257,6 +1293,7 @@ class Engine:
         _sw = head.writes
         head.writes = None
         self.havoc_frame(head, spec.frame)
+        self.auto_havoc_locals(head, n.body, frame)
         allowed_locs |= self.frame_locs(head, spec.frame)
         head.writes = _sw
         for nm, srt in getattr(spec, 'rebind', {}).items():
@@ -1895,7 +1932,13 @@ class Engine:
             npush = 0
             try:
                 for v in n.values:
+                    g0 = dict(st.ghost) if npush else None
+                    w0 = set(st.writes) if (npush and st.writes is not None) else None
                     x = self.ev(v, st)
+                    if g0 is not None and (_ghost_changed(g0, st.ghost) or (w0 is not None and st.writes != w0)):
+                        # the operand is only evaluated when the operands before it did not decide the result; an effect (a recorded
+                        # call, a write) under a symbolic guard would need a fork, which expressions do not have
+                        raise Unsupported('call with effects inside a short-circuit operand guarded by a symbolic condition (line %d)' % getattr(n, 'lineno', 0))
                     t = self.truth(x, st)
                     ts.append(t)
                     if isinstance(t, bool):
@@ -2602,6 +2645,28 @@ class Engine:
         if h is not None:
             return h(self, st, [base] + args, kwargs, node)
         raise Unsupported('method %s on %r' % (name, base))
+
+
+
+def _ghost_changed(a, b):
+    if set(a) != set(b):
+        return True
+    for k in a:
+        x, y = a[k], b[k]
+        if x is y:
+            continue
+        if z3.is_expr(x) and z3.is_expr(y):
+            if not x.eq(y):
+                return True
+            continue
+        if isinstance(x, (int, bool, str, list, tuple, type(None))) and isinstance(y, (int, bool, str, list, tuple, type(None))):
+            try:
+                if x == y:
+                    continue
+            except Exception:      # noqa
+                pass
+        return True
+    return False
 
 
 import operator  # noqa: E402
